@@ -6,7 +6,7 @@
    overtaken by any other step.  Every theorem quantifies over all runs, and (except where said) over both forms
    of the expire loop ([fixed] = false: the pinned tree; true: the repaired one). *)
 From Coq Require Import List Arith NArith Bool.
-From NngV Require Import Gen.Consts Core.AioModel Core.AioProofs Core.AioFw.
+From NngV Require Import Gen.Consts Core.AioModel Core.AioProofs Core.AioFw Core.ExpireScan.
 Import ListNotations.
 
 (* exactly once: in every reachable state each submitted operation has exactly one
@@ -48,6 +48,39 @@ Theorem aio_result_refuted : forall fixed, exists s, arun fixed aio_init late_ab
 Proof. exact AioProofs.aio_result_refuted. Qed.
 Print Assumptions aio_result_refuted.
 
+(* when nni_aio_stop / nni_aio_fini has returned the expire thread holds no reference to the
+   aio (not marked, no continuation of the expire loop pending, off the expire list for good):
+   the memory may be released *)
+Theorem aio_stop_no_expire_reference : forall fixed ls s,
+  arun fixed aio_init ls = Some s -> g_stop_returned s = true ->
+  a_expiring s = false /\ exp_threads (threads s) = 0 /\ a_on_eq s = false.
+Proof. intros fixed ls s H. exact (proj2 (AioProofs.aio_stop_no_expire_reference fixed ls aio_init s invE_init H)). Qed.
+Print Assumptions aio_stop_no_expire_reference.
+
+(* the expire loop's scan over the whole queue (Core/ExpireScan.v: batch limit and eq_next):
+   no due operation is forgotten - a due entry that does not fit into the batch keeps the loop
+   awake, and within ceil(n / batch) rounds every due entry has been taken, in queue order,
+   and nothing that is not due *)
+Theorem expire_scan_due_left_keeps_awake : forall now room l b rest nx,
+  scan now room l None = (b, rest, nx) -> forall x, In x rest -> due now x = true -> sleeps now nx = false.
+Proof. exact scan_due_left_keeps_awake. Qed.
+Print Assumptions expire_scan_due_left_keeps_awake.
+Theorem expire_rounds_mark_all_due : forall now batch, 0 < batch -> forall fuel l bs fin,
+  length l < fuel * batch -> rounds fuel now batch l = (bs, fin) ->
+  (forall x, In x fin -> due now x = false) /\
+  (forall x, In x l <-> In x (concat bs) \/ In x fin) /\
+  (forall x, In x (concat bs) -> due now x = true).
+Proof. exact rounds_mark_all_due. Qed.
+Print Assumptions expire_rounds_mark_all_due.
+Theorem expire_batch_matches_source : NNI_EXPIRE_BATCH_MODEL = C02_NNI_EXPIRE_BATCH.
+Proof. reflexivity. Qed.
+Print Assumptions expire_batch_matches_source.
+(* a check of the code's shape, regenerated on every run: the scan loop of the source still has
+   the two-branch form that [scan] models (due and room: into the batch; else: lower eq_next) *)
+Theorem expire_scan_shape_current : C02_EXPIRE_SCAN_SHAPE = true.
+Proof. reflexivity. Qed.
+Print Assumptions expire_scan_shape_current.
+
 (* progress: every step of the library's own threads strictly decreases a measure, so
    from any state the completion machinery reaches quiescence within mu steps
    once the environment stops issuing new operations *)
@@ -59,7 +92,7 @@ Print Assumptions aio_bounded_to_completion.
 Theorem aio_scan_marks_only_due : forall fixed s now s',
   astep fixed s (LExpire now) = Some s' -> exists e, a_expire s = Some e /\ (e < now)%N.
 Proof.
-  intros fixed s now s' H. cbn [astep] in H. destruct (a_on_eq s); [|discriminate].
+  intros fixed s now s' H. cbn [astep] in H. destruct (a_on_eq s && negb (a_expiring s)); [|discriminate].
   destruct (a_expire s) as [e|]; cbn in H; [|discriminate].
   destruct (e <? now)%N eqn:E; cbn in H; [|discriminate]. exists e. split; auto. now apply N.ltb_lt.
 Qed.
